@@ -152,6 +152,8 @@ def run(repo, rep, tier):
     explicit_namespace_wins(repo, rep, 'C04.R8')
     twin_target_normalisation(repo, rep)
     iparam_typed_by_name(repo, rep, operations(repo))
+    from .c13 import adapter_keys_agree
+    adapter_keys_agree(repo, rep, 'C04.R11', lambda op: True, 100)
     r1 = rep.rule('C04.R1', 'client IPARAMVALUE names = keys read by the '
                   'server-side adapter')
     r2 = rep.rule('C04.R2', 'None is omitted, everything else is sent')
